@@ -375,6 +375,19 @@ def _(L, fx):
     return out
 
 
+@op('cif_packet_create:many-names')
+def _(L, fx):
+    # enough names for the packet's hash table to grow while it is being built
+    p = P_()
+    arr, keep = L.ustr_array(['_M%03d' % j for j in range(260)])
+    rc = yield (lambda: L.call('cif_packet_create', C.byref(p), arr))
+    out = None
+    if p.value:
+        out = len(L.packet_names(p.value)[1])
+        L.packet_free(p.value)
+    return out
+
+
 @op('cif_packet_create:empty')
 def _(L, fx):
     p = P_()
@@ -524,6 +537,46 @@ def _(L, fx):
         return L.call('cif_walk', fx.cif, C.byref(rec.handler), None)
     rc = yield go
     return len(box[-1].events) if rc == CIF_OK and box else None
+
+
+# ---- the insertion at which a map's hash table grows ------------------------------------------------------------------
+# (the bucket array is reallocated only after a couple of hundred entries; which insertion does it is found by counting
+# allocations on a scratch map, then the real map is brought to the state just before it)
+
+def _growth_op(name, make, insert, names_of, free, label):
+    @op(name)
+    def _(L, fx):
+        keys = [label % j for j in range(700)]
+        probe = make(L)
+        base = jstar = None
+        for j, k in enumerate(keys):
+            L.vp_lib_fault_arm(0)
+            rc = insert(L, probe, k, fx.v_char)
+            n = L.vp_lib_fault_count()
+            if rc != CIF_OK:
+                raise HarnessError('probe insertion -> %d' % rc)
+            if j == 1:
+                base = n
+            elif j > 1 and n > base:
+                jstar = j
+                break
+        free(L, probe)
+        if jstar is None:
+            raise HarnessError('no insertion with an extra allocation among %d' % len(keys))
+        m = make(L)
+        for k in keys[:jstar]:
+            insert(L, m, k, fx.v_char)
+        fx.extra.append(('packet' if name.startswith('cif_packet') else 'value', m))
+        rc = yield (lambda: insert(L, m, keys[jstar], fx.v_char))
+        return (rc == CIF_OK, jstar, tuple(sorted(names_of(L, m))))
+
+
+_growth_op('cif_packet_set_item:hash-growth', lambda L: L.packet_create([])[1],
+           lambda L, m, k, v: L.call('cif_packet_set_item', m, U(k), v), lambda L, m: L.packet_names(m)[1],
+           lambda L, m: L.packet_free(m), '_g%03d')
+_growth_op('cif_value_set_item_by_key:hash-growth', lambda L: L.value_create(KIND_TABLE)[1],
+           lambda L, m, k, v: L.call('cif_value_set_item_by_key', m, U(k), v), lambda L, m: L.table_keys(m)[1],
+           lambda L, m: L.value_free(m), 'g%03d')
 
 
 # ---- packet iterators: the scenario around the faulted step is completed (or aborted) without faults ---------------
